@@ -471,7 +471,13 @@ def expand(template_text, backend="verus"):
     for m in re.finditer(r"(external_body|assume_specification|\badmit\s*\(|\bassume\s*\(|kani::stub\b|kani::assume|external_fn_specification|#\[verifier::external\b|uninterp)", exp.text):
         ln = exp.text.count("\n", 0, m.start()) + 1
         line_txt = exp.text.split("\n")[ln - 1].strip()
-        # find the next fn name after it for context
-        ctx = re.search(r"fn\s+(\w+)", exp.text[m.start():m.start() + 400])
-        exp.trusted.append("%s @gen:%d %s" % (m.group(1).strip("( "), ln, ("fn " + ctx.group(1)) if ctx else line_txt[:60]))
+        kind = m.group(1).strip("( ")
+        if kind in ("external_body", "assume_specification", "uninterp", "external_fn_specification", "#[verifier::external"):
+            ctx = re.search(r"fn\s+(\w+)", exp.text[m.start():m.start() + 400])      # attribute precedes its fn
+            name = ctx.group(1) if ctx else None
+        else:
+            prev = re.findall(r"fn\s+(\w+)", exp.text[:m.start()])                       # statement inside a fn
+            name = prev[-1] if prev else None
+        exp.trusted.append("%s @gen:%d %s" % (kind, ln, ("fn " + name) if name else line_txt[:60]))
+    exp.trusted = sorted(set(exp.trusted), key=lambda t: int(re.search(r"@gen:(\d+)", t).group(1)))
     return exp
